@@ -24,7 +24,8 @@ diplomat-runtime = { path = "%s/runtime" }
 
 
 def layout_oracle(structs):
-    d = os.path.join(BUILD, "c08-oracle" + ("" if REPO == "/repo" else "-alt"))
+    from vlib.common import _repo_tag
+    d = os.path.join(BUILD, "c08-oracle" + _repo_tag())
     os.makedirs(os.path.join(d, "src"), exist_ok=True)
     os.makedirs(os.path.join(d, ".cargo"), exist_ok=True)
     open(os.path.join(d, "Cargo.toml"), "w").write(ORACLE_TOML % REPO)
